@@ -144,11 +144,18 @@ def gen_spec(rng, rank=None, small=False, need_hard=False, eta_max=0.45, converg
         om = gen_omega_self(rng) if a == b else gen_omega_cross(rng)
         explicit_sigma = rng.random() < 0.15
         ps[pkey(a, b)] = {'potential': pot, 'closure': clo, 'omega': om, 'explicit_sigma': explicit_sigma}
-    spec = {'types': types, 'kT': kT, 'domain': dom, 'density': dens, 'diameter': diam, 'pairs': ps}
+        # a potential may carry its own length scale, different from the contact distance (d_a+d_b)/2 the closure uses
+        # (e.g. WCA(sigma=0.9) on unit-diameter sites).  Only with a flagged closure: there the core is the closure's.
+        if clo['hc'] and rng.random() < 0.2:
+            ps[pkey(a, b)]['potential_sigma_factor'] = rng.choice([0.8, 0.9, 0.9, 1.1])
+    spec = {'types': types, 'kT': kT, 'domain': dom, 'density': dens, 'diameter': diam, 'pairs': ps,
+            # how the simulated user fills the tables: one list x list statement (the documented idiom) then per-pair overrides, or pair by pair
+            'bulk': {'potential': rng.random() < 0.4, 'closure': rng.random() < 0.4}}
     if need_hard and not any(is_hard_core(spec, a, b) for (a, b) in pairs(types)):
         a = types[0]
         ps[pkey(a, a)]['potential'] = {'cls': 'HardSphere', 'kw': {}}
         ps[pkey(a, a)]['closure'] = {'cls': 'PercusYevick', 'hc': False, 'alias': False}
+        ps[pkey(a, a)].pop('potential_sigma_factor', None)
     return spec
 
 
@@ -172,10 +179,19 @@ def make_domain(pp, dom):
     return pp.Domain(length=dom['length'], **{dom['via']: dom['value']})
 
 
+def potential_sigma(spec, a, b):
+    """length scale of the pair's potential: its own if the user gave one, else the contact distance"""
+    p = spec['pairs'][pkey(a, b)]
+    f = p.get('potential_sigma_factor')
+    return sigma_ab(spec, a, b) * f if f else sigma_ab(spec, a, b)
+
+
 def make_potential(pp, spec, a, b):
     p = spec['pairs'][pkey(a, b)]
     kw = dict(p['potential']['kw'])
-    if p.get('explicit_sigma'):
+    if p.get('potential_sigma_factor'):
+        kw['sigma'] = potential_sigma(spec, a, b)
+    elif p.get('explicit_sigma'):
         kw['sigma'] = sigma_ab(spec, a, b)
     return getattr(pp.potential, p['potential']['cls'])(**kw)
 
@@ -224,10 +240,22 @@ def build_system(pp, spec):
     for t in types:
         s.density[t] = spec['density'][t]
         s.diameter[t] = spec['diameter'][t]
-    for (a, b) in pairs(types):
+    bulk = spec.get('bulk') or {}
+    prs = pairs(types)
+    a0, b0 = prs[0]
+    p0 = spec['pairs'][pkey(a0, b0)]
+    plain0 = not p0.get('explicit_sigma') and not p0.get('potential_sigma_factor')
+    if bulk.get('potential') and plain0:
+        s.potential[types, types] = make_potential(pp, spec, a0, b0)
+    if bulk.get('closure'):
+        s.closure[types, types] = make_closure(pp, p0['closure'])
+    for (a, b) in prs:
         p = spec['pairs'][pkey(a, b)]
-        s.potential[a, b] = make_potential(pp, spec, a, b)
-        s.closure[a, b] = make_closure(pp, p['closure'])
+        plain = not p.get('explicit_sigma') and not p.get('potential_sigma_factor')
+        if not (bulk.get('potential') and plain0 and plain and p['potential'] == p0['potential']):
+            s.potential[a, b] = make_potential(pp, spec, a, b)
+        if not (bulk.get('closure') and p['closure'] == p0['closure']):
+            s.closure[a, b] = make_closure(pp, p['closure'])
         s.omega[a, b] = make_omega(pp, p['omega'], g.k)
     return s
 
@@ -264,10 +292,10 @@ def ref_omega(pp, spec, k):
 
 
 def ref_potential(pp, spec, a, b, r):
-    """u(r)/kT for the pair from a fresh potential object with sigma = explicit or (d_a+d_b)/2."""
+    """u(r)/kT for the pair from a fresh potential object with sigma = the user's own or (d_a+d_b)/2."""
     p = spec['pairs'][pkey(a, b)]
     kw = dict(p['potential']['kw'])
-    kw['sigma'] = sigma_ab(spec, a, b)
+    kw['sigma'] = potential_sigma(spec, a, b)
     U = getattr(pp.potential, p['potential']['cls'])(**kw)
     return np.asarray(U.calculate(np.copy(r)), dtype=float) / spec['kT']
 
